@@ -618,7 +618,7 @@ func TestVerifC11_hist_immut(t *testing.T) {
 	// defect could corrupt, and SetPanicOnFault is per goroutine: cases are independent -> parallel.
 	verifmc.ParallelFor(len(cases), func(ci int) {
 		c := cases[ci]
-		if !r.Want(c.name) {
+		if r.Replaying() && !strings.HasPrefix(r.ReplayCase(), c.name) {
 			return
 		}
 		// pass 1
